@@ -113,12 +113,13 @@ def run(ctx):
     # ---- R3
     R = m.get_class(FILE, 'ResolveAssociatesTransformer')
     ve = R.function('visit_Expression')
-    ok = ve is not None and 'ResolveAssociateMapper(start_depth=self.start_depth)(o)' in ast.unparse(ve.node)
+    ok = ve is not None and X.has(ast.unparse(ve.node), 'ResolveAssociateMapper(start_depth=self.start_depth)(o)')
     (ctx.judge('R3', 'visit_Expression applies the mapper') if ok else
      ctx.violation('R3', 'ResolveAssociatesTransformer.visit_Expression', R.where, 'expressions are not passed through ResolveAssociateMapper'))
     va = R.function('visit_Associate')
     rets = [ast.unparse(r.value) for r in ast.walk(va.node) if isinstance(r, ast.Return)]
-    ok = sorted(rets) == ['body', 'o.clone(body=body)'] and 'body = self.visit(o.body, **kwargs)' in ast.unparse(va.node)
+    bn = (X.names_assigned_from(va.node, 'self.visit(o.body') or ['body'])[0]
+    ok = sorted(rets) == sorted([bn, f'o.clone(body={bn})']) and X.has(ast.unparse(va.node), 'body = self.visit(o.body, **kwargs)')
     (ctx.judge('R3', 'visit_Associate returns visited body', facts={'returns': rets}) if ok else
      ctx.violation('R3', 'ResolveAssociatesTransformer.visit_Associate', va.where, f'visit_Associate returns {rets}'))
     dra = m.get_function(FILE, 'do_resolve_associates')
